@@ -321,12 +321,26 @@ class Union:
         self.__args__ = self.types = types
 
     def codegen(self):
-        from .dependent import combine, generate_checking_code
+        from .dependent import (
+            CodeGen,
+            DependentType,
+            combine,
+            generate_checking_code,
+        )
+
+        def guarded(t):
+            # The members may have different bounds: the check of a dependent
+            # member must only run on instances of its own bound
+            cg = generate_checking_code(t)
+            if isinstance(t, DependentType):
+                cg = CodeGen(
+                    "(isinstance({arg}, {bound}) and " + cg.template + ")",
+                    {**cg.substitutions, "bound": t.bound},
+                )
+            return cg
 
         template = " or ".join("{}" for t in self.types)
-        return combine(
-            template, [generate_checking_code(t) for t in self.types]
-        )
+        return combine(template, [guarded(t) for t in self.types])
 
     def __type_order__(self, other):
         if other is Union:
